@@ -413,6 +413,32 @@ def is_subsequence(small, big):
     it = iter(big)
     return all(ch in it for ch in small)
 
+def check_renderers(mon, obs):
+    """The table / doc-string renderers the text formatters use (ModelDescriptor): what they print is Gherkin for the same
+    table / text -- re-parsing it gives the model's cells and text back."""
+    from behave.model_describe import ModelDescriptor
+    from behave.parser import parse_steps
+    for f in obs.features:
+        for s in f.walk_scenarios():
+            for step in s.all_steps:
+                if step.table is not None:
+                    text = ModelDescriptor.describe_table(step.table, "      ")
+                    want = ([str(h) for h in step.table.headings], [[str(c) for c in r.cells] for r in step.table.rows])
+                    try:
+                        back = parse_steps(u"Given a step\n" + text)[0].table
+                        got = ([str(h) for h in back.headings], [[str(c) for c in r.cells] for r in back.rows])
+                    except Exception as ex:
+                        got = repr(ex)
+                    mon.check("render.table_reparses_to_the_same_cells", got == want, lambda: dict(rendered=text, got=got, want=want))
+                if step.text is not None:
+                    text = ModelDescriptor.describe_docstring(step.text, "      ")
+                    try:
+                        got = str(parse_steps(u"Given a step\n" + text)[0].text)
+                    except Exception as ex:
+                        got = repr(ex)
+                    mon.check("render.docstring_reparses_to_the_same_text", got == str(step.text),
+                              lambda: dict(rendered=text, got=got, want=str(step.text)))
+
 
 def run_case(lab, mon, case, names, sample=False, real_files=None):
     """real_files=k: additionally the REAL factory (behave.formatter._registry.make_formatters) builds the same formatter list
@@ -429,21 +455,63 @@ def run_case(lab, mon, case, names, sample=False, real_files=None):
         from behave.formatter._registry import make_formatters as real_make_formatters
         from behave.formatter.base import StreamOpener
         config.format = list(names)
-        openers = [StreamOpener(filename=os.path.join(tmpdir, "out%d.txt" % i)) for i in range(real_files)]
+        openers[:] = [StreamOpener(filename=os.path.join(tmpdir, "out%d.txt" % i)) for i in range(real_files)]
         real[:] = real_make_formatters(config, openers)
         return real + recs
+    openers = []
+    streams2 = []
+    second = {}
+    first_files = {}
+
+    def second_run(st):
+        # a second run in the same process with the SAME Configuration and the same output openers (Runner(config).run() twice)
+        from behave.formatter._registry import make_formatters as real_make_formatters
+        from behave.model import reset_model
+        for i in range(real_files):                 # what run 1 wrote, before run 2 writes the files again
+            try:
+                with open(os.path.join(tmpdir, "out%d.txt" % i), encoding="utf-8") as fh:
+                    first_files[i] = fh.read()
+            except OSError:
+                first_files[i] = None
+        reset_model(st.features)
+        recs2 = make_formatters(names, st.config, streams2)
+        st.runner.formatters = real_make_formatters(st.config, openers) + recs2
+        try:
+            st.runner.run()
+            second["ok"] = True
+        except BaseException as ex:       # noqa
+            second["error"] = repr(ex)
     try:
-        obs = lab.run(case["program"], args=case["args"], formatters=formatters, hook_fault=case.get("hook_fault"))
+        obs = lab.run(case["program"], args=case["args"], formatters=formatters, hook_fault=case.get("hook_fault"),
+                      second_run=(second_run if (real_files and not case.get("hook_fault")) else None))
+        if second:
+            W2 = lambda **kw: RB.witness(case, formatters=names, output_files=real_files, **kw)
+            mon.check("factory.second_run_with_same_configuration", "error" not in second, lambda: W2(error=second.get("error")))
+            if "error" not in second:
+                for i in range(real_files):
+                    path = os.path.join(tmpdir, "out%d.txt" % i)
+                    try:
+                        with open(path, encoding="utf-8") as fh:
+                            content = fh.read()
+                    except OSError:
+                        content = None
+                    want2 = streams2[i][1].getvalue()
+                    if not (names[i] == "rerun" and not want2):
+                        mon.check("factory.second_run_with_same_configuration", content == want2,
+                                  lambda: W2(index=i, name=names[i], got=(content or "")[:200], want=want2[:200]))
         if real_files is not None and obs.escaped is None and len(real) == len(names):
             mon.seen("real_factory_files_of_formatters", "%d/%d" % (real_files, len(names)))
             W0 = lambda **kw: RB.witness(case, formatters=names, output_files=real_files, **kw)
             for i in range(real_files):
                 path = os.path.join(tmpdir, "out%d.txt" % i)
-                try:
-                    with open(path, encoding="utf-8") as fh:
-                        content = fh.read()
-                except OSError:
-                    content = None
+                if i in first_files:
+                    content = first_files[i]
+                else:
+                    try:
+                        with open(path, encoding="utf-8") as fh:
+                            content = fh.read()
+                    except OSError:
+                        content = None
                 want = streams[i][1].getvalue()
                 if names[i] == "rerun" and not want:
                     mon.check("factory.own_file_has_own_report", content in (None, ""), lambda: W0(index=i, name=names[i], got=content))
@@ -470,6 +538,7 @@ def run_case(lab, mon, case, names, sample=False, real_files=None):
     if obs.escaped is not None or not recs:
         return
     RB.check_identity(mon, obs, case, prefix="json")
+    check_renderers(mon, obs)
     rec = recs[-1]
     nshown = len(shown_scenarios(rec))
     mon.case((RB.strip_case(case), names), nshown >= 2 and len(names) >= 3)
